@@ -282,7 +282,42 @@ theorem foldl3_wid {α β γ : Type} (f : WM × β × γ → α → WM × β × 
   · exact this
 
 /-- no operation of a world touches the id its entity manager stamps into handles (`this_world_id_`) -/
-theorem applyOp_wid (w : WM) (op : WOp) : (w.applyOp info op).worldId = w.worldId := by
-  cases op <;> simp [WM.applyOp]
+theorem step_wid (w : WM) (op : Op Handle) : (w.step info op).1.worldId = w.worldId := by
+  cases op with
+  | create t mask shared =>
+    simp only [WM.step, create_wid]
+    rw [foldl_wid]
+    intro acc sid; simp
+  | buildNew t adds =>
+    simp only [WM.step]
+    split
+    · simp only []
+      rw [foldl_wid]
+      · simp
+      · intro acc p; simp
+    · simp
+  | build t e adds rems =>
+    simp only [WM.step]
+    split
+    · simp only []
+      rw [foldl_wid', foldl_wid]
+      · intro acc p; simp
+      · intro acc c; simp
+    · simp
+  | clone e =>
+    simp only [WM.step]
+    split
+    · rename_i w' d heq
+      have := congrArg (fun r => r.1.worldId) heq
+      simp only [clone_wid] at this
+      exact this.symm
+    · rename_i w' heq
+      have := congrArg (fun r => r.1.worldId) heq
+      simp only [clone_wid] at this
+      exact this.symm
+  | clearArch mask =>
+    simp only [WM.step]
+    split <;> simp
+  | _ => simp [WM.step]
 
 end Mustache.Proofs.WorldsId
